@@ -24,6 +24,8 @@ type InlineAsm struct {
 	AlignStack bool
 	// (optional) Intel dialect.
 	IntelDialect bool
+	// (optional) May unwind the stack.
+	Unwind bool
 }
 
 // NewInlineAsm returns a new inline assembler expression based on the given
@@ -45,7 +47,7 @@ func (asm *InlineAsm) Type() types.Type {
 
 // Ident returns the identifier associated with the inline assembler expression.
 func (asm *InlineAsm) Ident() string {
-	// "asm" OptSideEffect OptAlignStack OptIntelDialect StringLit "," StringLit
+	// "asm" OptSideEffect OptAlignStack OptIntelDialect OptUnwind StringLit "," StringLit
 	buf := &strings.Builder{}
 	buf.WriteString("asm")
 	if asm.SideEffect {
@@ -56,6 +58,9 @@ func (asm *InlineAsm) Ident() string {
 	}
 	if asm.IntelDialect {
 		buf.WriteString(" inteldialect")
+	}
+	if asm.Unwind {
+		buf.WriteString(" unwind")
 	}
 	fmt.Fprintf(buf, " %s, %s", quote(asm.Asm), quote(asm.Constraint))
 	return buf.String()
